@@ -22,7 +22,7 @@ fn fmt_stub2(_a: core::fmt::Arguments<'_>) -> String {
 // @funcs Qcow2Dev::commit_header Qcow2Header::serialize_to_buf Qcow2RawHeader::serialize_vec
 // @stub alloc::fmt::format -> String::new()
 #[kani::proof]
-#[kani::unwind(4)]
+#[kani::unwind(10)]
 #[kani::stub(std::fmt::format, fmt_stub2)]
 fn c16_header_write() {
     let g = any_geo();
